@@ -12,7 +12,7 @@ CONSTANTS
   SymTargets = {"out"}
   RootIgnore = {}
   DirIgnore = {}
-  TreeIds = {1, 2, 3, 4, 5, 6, 7, 8, 9, 10}
+  TreeIds = {1, 3, 4, 6, 8, 9, 10, 14, 15, 16, 17, 18}
   SparseIds = {1, 2, 4}
   XP = "respect"
   Strict = "none"
